@@ -117,9 +117,12 @@ fn main() {
             props::c13::generate(&sub, &mut sink);
             sink.wrap = Some(("KReorder".into(), "C16".into()));
             props::c16::generate(&sub, &mut sink);
+            sink.wrap = Some(("KFan".into(), "C09".into()));
             if c05 {
-                sink.wrap = Some(("KFan".into(), "C09".into()));
                 props::c09::generate_zip_merge(&sub, &mut sink);
+            } else {
+                let mut r2 = rng::Rng::new(opts.seed ^ 0x66);
+                props::c09::zip_ts_cases(&mut r2, &mut sink, if opts.thorough { 1500 } else { 150 });
             }
             sink.finish(if c05 { props::RULE_C05 } else { props::RULE_C06 }, serde_json::json!({}));
         }
